@@ -206,8 +206,8 @@ def run(prog: Program, rep, thorough: bool) -> None:
                 try:
                     v = ev.eval(e, State({rownum: S('k')}), Ctx(td, f, None, 0))
                     return v.rf if isinstance(v, Scalar) else 'x'
-                except Undecided:
-                    return 'x'
+                except Undecided as exc:
+                    raise AnalysisError(f'{name}: slice bound {norm(e)}: {exc}') from exc
             lo, hi = bound(sl.slice.lower), bound(sl.slice.upper)
             if rev and (lo is None or (isinstance(lo, A.RF) and lo.is_zero())) and isinstance(hi, A.RF) \
                     and (hi.equals(k) or hi.equals(k + 1)):
